@@ -412,7 +412,8 @@ def run(ctx):
         only = (rp.get("detail") or {}).get("class")
         if not only or "shape" not in only:
             only = []          # e.g. a hang report: nothing to restrict to, run everything
-        only = [c for c in classes if only and c["shape"] == only["shape"] and c["names"] == only["names"] and c["types"] == only["types"]]
+        only = [c for c in classes if only and c["shape"] == only["shape"] and c["names"] == only["names"] and c["types"] == only["types"]
+                and c["mnames"] == only.get("mnames", "AB")]
         if only:
             chosen = {shape_key(only[0]["shape"]): only}
         else:
@@ -437,6 +438,10 @@ def run(ctx):
     for need in ("plain", "unnamed", "blank", "blankmix", "initialism", "nonascii", "locals"):
         if need not in live_names and not only:
             raise MachineryError("vacuous: no compilable class with parameter-name set %r" % need)
+    live_m = {c.get("mnames", "AB") for c in live.values()}
+    for need in MNAMES:
+        if need not in live_m and not only:
+            raise MachineryError("vacuous: no compilable class with method-name set %r" % need)
     plan_pkgs = {}
     for k, skip, stub, resets in OPT_PKGS:
         plan_pkgs.setdefault("%s/%s" % ("true" if stub else "false", "true" if resets else "false"), []).append("o%d" % k)
@@ -610,6 +615,7 @@ def report(ctx, rj, live, kind):
     c = live.get(cid, {})
     at = rj["at"]
     sig = {"kind": kind, "clause": rj.get("clause"), "op": at.get("op"), "names": c.get("names"), "types": c.get("types"),
+           "method_names": c.get("mnames"),
            "variadic": c.get("shape", {}).get("var"), "stub": bool(k & 2), "resets": bool(k & 4),
            "reply": at.get("reply", {}).get("kind")}
     sk = json.dumps(sig, sort_keys=True)
